@@ -1,4 +1,5 @@
 import HapVerif.Model.Tlv8Struct
+import HapVerif.Proofs.Tlv8Struct
 import HapVerif.Gen.Schemas
 import HapVerif.Proofs.Tlv
 
@@ -7,10 +8,12 @@ import HapVerif.Proofs.Tlv
 Proved here: which classes are inside the generic well-formedness predicate (the list of
 exceptions is pinned, so a new class that breaks it breaks the theorem), the canonical form of the
 encoder (declaration order, maximal 255-byte fragments, `00 00` between list items), and the two
-known findings as counterexample theorems.  The generic round-trip theorem
-(`decStruct s (encStruct s v) = ok v` for every `WFS` schema and `WFV` value, by induction on the
-nesting depth) is **not yet proved** - it is the `_partial` part of this property and is covered by
-the per-class differential streams and the round-trip oracle on the implementation. -/
+known findings as counterexample theorems, and the **generic round-trip theorem**
+(`C16_generic_roundtrip`): for every schema with distinct byte-sized TLV types and every value whose set
+fields round-trip through a non-empty encoding, `decode (encode v) = v` - with the field-level
+hypothesis discharged for every scalar type on its whole domain and inherited by struct-typed fields
+(`C16_field_roundtrips`).  Still by per-class kernel check and differential streams only: fields that
+are *lists* of structs (`tlv_array` splitting at the `00 00` separators). -/
 
 namespace HapVerif.C16
 open HapVerif HapVerif.Tlv8
@@ -117,6 +120,66 @@ theorem C16_list_separators (s : Schema) : ∀ (vs : List SVal) (es : List Bytes
           · simp only [h0, hrest, bind, Except.bind, pure, Except.pure]
             simp [List.intercalate, List.intersperse, List.append_assoc]
           · intro hv; cases hv
+
+
+/-! ## the generic round trip -/
+
+/-- **Any schema.**  For every schema whose TLV types are distinct and fit a byte, and every positional value: if
+    each field that is set encodes to a non-empty value that its own type decodes back (`Enc`), then
+    `TLVStruct.decode(TLVStruct.encode(v)) = v` - no bound on the number of fields, value lengths or fragments.
+    (An empty encoding is the documented asymmetry: `encode` writes nothing for it and it comes back unset.) -/
+theorem C16_generic_roundtrip (fs : List (Nat × FieldTy)) (vs : List (Option Val)) (es : List (Option Bytes))
+    (h : Enc fs vs es) (hnd : (fs.map (·.1)).Nodup) (hlt : ∀ f ∈ fs, f.1 < 256) :
+    ∃ enc, encStruct (.mk fs) (.mk vs) = .ok enc ∧ decStruct (.mk fs) enc = .ok (.mk vs) :=
+  ⟨_, (struct_roundtrip fs vs es h hnd hlt).1, (struct_roundtrip fs vs es h hnd hlt).2⟩
+
+/-- the iterator recovers exactly the (type, value) segments of a canonical encoding, however many 255-byte
+    fragments each value needs -/
+theorem C16_iterator_recovers_segments (segs : List (UInt8 × Bytes)) (h : GoodSegs segs) :
+    ∃ items, iter (cat segs) = .ok items ∧ items.map (fun it => (it.2.1, it.2.2.2)) = segs :=
+  iterAux_cat segs h _ 0 (Nat.lt_succ_self _)
+
+/-- the hypothesis of the generic theorem holds for every scalar field type on its whole value domain, and a
+    struct-typed field inherits it from its own schema (so nested structs follow by applying the theorem
+    inside-out) -/
+theorem C16_field_roundtrips :
+    (∀ n x, 0 < n → x < 256 ^ n → encVal (.uint n) (.int x) = .ok (natToLe n x) ∧ natToLe n x ≠ [] ∧
+      decVal (.uint n) (natToLe n x) = .ok (.int x)) ∧
+    (∀ x, x < 65536 → encVal .buint16 (.int x) = .ok (natToLe 2 x).reverse ∧ (natToLe 2 x).reverse ≠ [] ∧
+      decVal .buint16 (natToLe 2 x).reverse = .ok (.int x)) ∧
+    (∀ b : Bytes, b ≠ [] → encVal .bytes (.raw b) = .ok b ∧ b ≠ [] ∧ decVal .bytes b = .ok (.raw b)) ∧
+    (∀ b : Bytes, b ≠ [] → validUtf8 b.length b = true →
+      encVal .str (.raw b) = .ok b ∧ b ≠ [] ∧ decVal .str b = .ok (.raw b)) ∧
+    (∀ ms x, x ∈ ms → x < 256 → encVal (.enum ms) (.int x) = .ok (natToLe 1 x) ∧ natToLe 1 x ≠ [] ∧
+      decVal (.enum ms) (natToLe 1 x) = .ok (.int x)) ∧
+    (∀ fs vs es, Enc fs vs es → (fs.map (·.1)).Nodup → (∀ f ∈ fs, f.1 < 256) → cat (segsOf fs es) ≠ [] →
+      encVal (.struct (.mk fs)) (.struct (.mk vs)) = .ok (cat (segsOf fs es)) ∧ cat (segsOf fs es) ≠ [] ∧
+      decVal (.struct (.mk fs)) (cat (segsOf fs es)) = .ok (.struct (.mk vs))) :=
+  ⟨field_uint, field_buint16, field_bytes, field_str, field_enum, field_struct⟩
+
+/-- non-vacuity and nesting: a struct with an integer, a byte string of ANY length and a nested struct -/
+example (x y : Nat) (b : Bytes) (hx : x < 256) (hy : y < 65536) (hb : b ≠ []) :
+    let inner : List (Nat × FieldTy) := [(1, .uint 2)]
+    let outer : List (Nat × FieldTy) := [(1, .uint 1), (2, .bytes), (3, .struct (.mk inner))]
+    let v : SVal := .mk [some (.int x), some (.raw b), some (.struct (.mk [some (.int y)]))]
+    ∃ enc, encStruct (.mk outer) v = .ok enc ∧ decStruct (.mk outer) enc = .ok v := by
+  intro inner outer v
+  have hy' : y < 256 ^ 2 := by simpa using hy
+  have hx' : x < 256 ^ 1 := by simpa using hx
+  obtain ⟨i1, i2, i3⟩ := field_uint 2 y (by omega) hy'
+  have hin : Enc inner [some (.int y)] [some (natToLe 2 y)] := Enc.some _ _ _ _ _ _ _ i1 i2 i3 Enc.nil
+  have hcat : cat (segsOf inner [some (natToLe 2 y)]) ≠ [] := by
+    obtain ⟨r, hr⟩ := cat_head (UInt8.ofNat 1) (natToLe 2 y) [] i2
+    simp only [segsOf, inner]
+    rw [hr]; simp
+  obtain ⟨s1, s2, s3⟩ := field_struct inner _ _ hin (by decide) (by decide) hcat
+  obtain ⟨u1, u2, u3⟩ := field_uint 1 x (by omega) hx'
+  obtain ⟨b1, b2, b3⟩ := field_bytes b hb
+  have hout : Enc outer [some (.int x), some (.raw b), some (.struct (.mk [some (.int y)]))]
+      [some (natToLe 1 x), some b, some (cat (segsOf inner [some (natToLe 2 y)]))] :=
+    Enc.some _ _ _ _ _ _ _ u1 u2 u3 (Enc.some _ _ _ _ _ _ _ b1 b2 b3 (Enc.some _ _ _ _ _ _ _ s1 s2 s3 Enc.nil))
+  obtain ⟨r1, r2⟩ := struct_roundtrip outer _ _ hout (by decide) (by decide)
+  exact ⟨_, r1, r2⟩
 
 /-! ## known findings as theorems (model of the unchanged code) -/
 
